@@ -171,4 +171,78 @@ theorem parsePlainKey_marshal (o : PtOracle) (k : PubKey) (h : KeyWF o k) :
   rw [parsePlainKey, PubKey.marshal, parseString_putString _ (type_length k)]
   simp only [hb, List.isEmpty_nil, ↓reduceIte]
 
+/-! ## `parsePubKey(in, algo)` returns a key of type `algo` -/
+
+theorem curveName_curveOfName (c : Bytes) (bits : Nat) (h : curveOfName c = some bits) : curveName bits = c := by
+  unfold curveOfName at h
+  split at h
+  · simp only [Option.some.injEq] at h; subst h; rename_i hc; rw [hc]; rfl
+  · split at h
+    · simp only [Option.some.injEq] at h; subst h; rename_i hc; rw [hc]; rfl
+    · split at h
+      · simp only [Option.some.injEq] at h; subst h; rename_i hc; rw [hc]; rfl
+      · cases h
+
+theorem parseRSA_type (b : Bytes) (k : PubKey) (r : Bytes) (h : parseRSA b = some (k, r)) : k.type = algoRSA := by
+  unfold parseRSA at h
+  repeat (split at h; (· cases h))
+  simp only [Option.some.injEq, Prod.mk.injEq] at h
+  rw [← h.1]; rfl
+
+theorem parseDSA_type (b : Bytes) (k : PubKey) (r : Bytes) (h : parseDSA b = some (k, r)) : k.type = algoDSA := by
+  unfold parseDSA at h
+  repeat (split at h; (· cases h))
+  simp only [Option.some.injEq, Prod.mk.injEq] at h
+  rw [← h.1]; rfl
+
+theorem parseECDSA_type (o : PtOracle) (e b : Bytes) (k : PubKey) (r : Bytes) (h : parseECDSA o e b = some (k, r)) :
+    k.type = e := by
+  unfold parseECDSA at h
+  repeat (split at h; (· cases h))
+  split at h
+  · simp only [Option.some.injEq, Prod.mk.injEq] at h
+    rw [← h.1]
+    rename_i hexp _ bits hbits _
+    have hexp' : e = nm "ecdsa-sha2-" ++ _ := Decidable.not_not.mp hexp
+    show nm "ecdsa-sha2-" ++ curveName bits = e
+    rw [curveName_curveOfName _ _ hbits, hexp']
+  · cases h
+
+theorem parseSKECDSA_type (o : PtOracle) (b : Bytes) (k : PubKey) (r : Bytes) (h : parseSKECDSA o b = some (k, r)) :
+    k.type = algoSKECDSA := by
+  unfold parseSKECDSA at h
+  repeat (split at h; (· cases h))
+  split at h
+  · simp only [Option.some.injEq, Prod.mk.injEq] at h; rw [← h.1]; rfl
+  · cases h
+
+theorem parseED25519_type (b : Bytes) (k : PubKey) (r : Bytes) (h : parseED25519 b = some (k, r)) : k.type = algoED25519 := by
+  unfold parseED25519 at h
+  repeat (split at h; (· cases h))
+  simp only [Option.some.injEq, Prod.mk.injEq] at h
+  rw [← h.1]; rfl
+
+theorem parseSKEd25519_type (b : Bytes) (k : PubKey) (r : Bytes) (h : parseSKEd25519 b = some (k, r)) : k.type = algoSKED25519 := by
+  unfold parseSKEd25519 at h
+  repeat (split at h; (· cases h))
+  simp only [Option.some.injEq, Prod.mk.injEq] at h
+  rw [← h.1]; rfl
+
+/-- a key returned by `parsePubKey(in, algo)` has `Type() == algo` -/
+theorem parsePlain_type (o : PtOracle) (algo b : Bytes) (k : PubKey) (r : Bytes)
+    (h : parsePlain o algo b = some (k, r)) : k.type = algo := by
+  unfold parsePlain at h
+  split at h
+  · rename_i ha; rw [ha]; exact parseRSA_type _ _ _ h
+  · split at h
+    · rename_i ha; rw [ha]; exact parseDSA_type _ _ _ h
+    · split at h
+      · exact parseECDSA_type _ _ _ _ _ h
+      · split at h
+        · rename_i ha; rw [ha]; exact parseSKECDSA_type _ _ _ _ h
+        · split at h
+          · rename_i ha; rw [ha]; exact parseED25519_type _ _ _ h
+          · split at h
+            · rename_i ha; rw [ha]; exact parseSKEd25519_type _ _ _ h
+            · cases h
 end XC.C38
